@@ -236,6 +236,8 @@ def install() -> None:
     if _INSTALLED:
         return
     _INSTALLED = True
+    if not hasattr(Reduino, "__dst_real_target__"):
+        Reduino.__dst_real_target__ = Reduino.target
     Reduino.target = lambda *a, **k: ""
     _utils.time = _VirtualTime
     _comm.serial = _FakeSerialModule
